@@ -235,7 +235,7 @@ func (c *twistPoint) Neg(a *twistPoint) {
 	c.x.Set(&a.x)
 	c.y.Neg(&a.y)
 	c.z.Set(&a.z)
-	c.t.SetZero()
+	c.t.Set(&a.t)
 }
 
 // code logic is form https://github.com/guanzhi/GmSSL/blob/develop/src/sm9_alg.c
